@@ -1,5 +1,6 @@
 SPECIFICATION SwSpec
 CONSTANTS
+  FailingGov = FALSE
   MaxHeight = 6
   MaxTx = 18
   MaxFail = 4
